@@ -109,6 +109,26 @@ probe("eval-order-args", Fn("tr", [("k", "i32")], "i32", Print(V("k")), Ret(V("k
       Main(Let("r", "i32", Call("add3", Call("tr", I("i32", 1)), Call("tr", I("i32", 2)), Call("tr", I("i32", 3)))), Print(V("r")),
            Let("q", "i32", Bin("sub", "i32", Call("tr", I("i32", 10)), Call("tr", I("i32", 4)))), Print(V("q"))), feats=("eval-order",))
 
+def _narrow_edges(t):
+    """every operand pair whose exact result leaves an 8/16-bit type, on operands the compiler cannot see through, observed as a
+    temporary: printed, widened, compared (the three places where a register wider than the type would show)"""
+    MIN, MAX = tmin(t), tmax(t)
+    if signed(t):
+        edge = [("add", MAX, 1), ("add", MAX, MAX), ("add", MIN, -1), ("sub", MIN, 1), ("sub", MAX, -1), ("sub", 0, MIN), ("mul", MAX, 2), ("mul", MIN, -1), ("mul", MIN, 2), ("mul", MAX, MAX),
+                ("div", MIN, -1), ("div", MAX, -1), ("div", MIN, 2), ("rem", MIN, -1), ("rem", MIN, 3), ("rem", MAX, -2)]
+    else:
+        edge = [("add", MAX, 1), ("add", MAX, MAX), ("sub", 0, 1), ("sub", 1, MAX), ("mul", MAX, 2), ("mul", MAX, MAX), ("div", MAX, 1), ("div", MAX, MAX), ("rem", MAX, 2)]
+    body = []
+    for k, (op, a, b) in enumerate(edge):
+        e = lambda: Bin(op, t, Call("id", I(t, a)), Call("id", I(t, b)))
+        body += [Print(e()), Print(Cast(t, "i64", e())), If(Bin("lt", t, e(), Call("id", I(t, 0))), [Print(I("i32", 1))], [Print(I("i32", 0))]),
+                 Let("s%d" % k, t, e()), Print(V("s%d" % k))]
+    return [Fn("id", [("v", t)], t, Ret(V("v"))), Main(*body)]
+
+
+for _t in ["i8", "i16", "u8", "u16"]:
+    probe("narrow-edges-" + _t, *_narrow_edges(_t), feats=("narrow-edges", _t))
+
 _TR = Fn("tr", [("k", "i32")], "i32", Print(V("k")), Ret(V("k")))
 _TR64 = Fn("tr64", [("k", "i64")], "i64", Print(V("k")), Ret(V("k")))
 # struct literals: initialisers run in the order they are WRITTEN, whatever the declaration order (also nested, as argument, as result)
